@@ -75,6 +75,16 @@ WithinTol(a, b, tols) ==
         IF an.digs # <<>> /\ bn.digs # <<>> /\ (an.e - bn.e > 40 \/ bn.e - an.e > 40) THEN FALSE
         ELSE BLe(diff, T)
 
+(* multiplication by a small natural (m < 2*10^5): on the limbs, then back to digits *)
+LimbDigits(l) == <<l \div 1000, (l \div 100) % 10, (l \div 10) % 10, l % 10>>
+RECURSIVE BToDigitsFrom(_, _)
+BToDigitsFrom(b, i) == IF i = 0 THEN <<>> ELSE LimbDigits(b[i]) \o BToDigitsFrom(b, i - 1)
+BToDigits(b) == BToDigitsFrom(b, Len(b))             \* big-endian, possibly with leading zeros
+DScale(x, m) ==
+    IF x.digs = <<>> \/ m = 0 THEN DZero
+    ELSE LET ds == BToDigits(BMulSmall(DigitsToB(x.digs), m))
+         IN  DNorm(Dec(x.neg, ds, LastPos(x) + Len(ds) - 1))
+
 (* comparison of magnitudes: -1, 0, 1 *)
 DCmpAbs(a, b) ==
     LET an == DNorm(a)  bn == DNorm(b) IN
@@ -149,4 +159,6 @@ ASSUME ~WithinHalfUlpExact(Dec(FALSE, <<1, 2>>, -300), Dec(FALSE, <<1, 2, 5, 1>>
 ASSUME ~WithinHalfUlp(Dec(TRUE, <<1, 2>>, 3), Dec(FALSE, <<1, 2>>, 3), 2)
 ASSUME DCmpAbs(Dec(TRUE, <<1, 2>>, 3), Dec(FALSE, <<1, 1, 9>>, 3)) = 1
 ASSUME DigStr(<<1, 0, 7>>) = "107"
+ASSUME DScale(Dec(FALSE, <<2, 5>>, 0), 3600) = Dec(FALSE, <<9>>, 3)
+ASSUME DScale(Dec(TRUE, <<1, 2, 3, 4, 5, 6, 7>>, -3), 60) = Dec(TRUE, <<7, 4, 0, 7, 4, 0, 2>>, -2)
 =============================================================================
